@@ -2,6 +2,8 @@ package c03
 
 import (
 	"fmt"
+	"sort"
+	"strings"
 	"path/filepath"
 	"testing"
 	"time"
@@ -55,47 +57,61 @@ func scenario(backend, k1, k2 string, withOp bool, ticks []time.Duration) qsched
 	return sc
 }
 
+// canonSet forgets the cross-thread order of the observation lines (which independent steps may permute).
+func canonSet(in map[string]bool) map[string]bool {
+	out := map[string]bool{}
+	for k := range in {
+		parts := strings.Split(k, " | ")
+		sort.Strings(parts)
+		out[strings.Join(parts, " | ")] = true
+	}
+	return out
+}
+
 func TestCheck(t *testing.T) {
 	r := runner.Start("C03", "model_checking")
 	historyPart(r)
 	type run struct {
 		sc    qsched.Scenario
 		bound int
+		// sleep: additionally explore the scenario WITHOUT a preemption bound under sleep-set reduction and require
+		// that every (order-insensitive) outcome of the plain exploration also appears there
+		sleep bool
 	}
 	var runs []run
 	// memory: unbounded (every interleaving); sqlite: preemption-bounded
 	for _, kk := range [][2]string{{"ack", "nack"}, {"nack", "ext"}, {"ext", "ack"}} {
-		runs = append(runs, run{scenario("memory", kk[0], kk[1], true, []time.Duration{sec}), -1})
+		runs = append(runs, run{sc: scenario("memory", kk[0], kk[1], true, []time.Duration{sec}), bound: -1, sleep: kk[0] == "ack"})
 	}
-	runs = append(runs, run{scenario("memory", "nack", "nack", true, []time.Duration{sec, sec}), runner.Pick(r, 4, -1)})
+	runs = append(runs, run{sc: scenario("memory", "nack", "nack", true, []time.Duration{sec, sec}), bound: runner.Pick(r, 4, -1), sleep: true})
 	sb := runner.Pick(r, 2, 3)
-	runs = append(runs, run{scenario("sqlite", "ack", "nack", true, nil), sb})
-	runs = append(runs, run{scenario("sqlite", "nack", "ext", false, []time.Duration{sec}), sb})
+	runs = append(runs, run{sc: scenario("sqlite", "ack", "nack", true, nil), bound: sb, sleep: r.Thorough()})
+	runs = append(runs, run{sc: scenario("sqlite", "nack", "ext", false, []time.Duration{sec}), bound: sb, sleep: true})
 	if r.Thorough() {
-		runs = append(runs, run{scenario("sqlite", "ext", "ack", true, []time.Duration{sec}), 2})
-		runs = append(runs, run{scenario("sqlite", "dead", "nack", true, []time.Duration{sec}), 2})
+		runs = append(runs, run{sc: scenario("sqlite", "ext", "ack", true, []time.Duration{sec}), bound: 2, sleep: true})
+		runs = append(runs, run{sc: scenario("sqlite", "dead", "nack", true, []time.Duration{sec}), bound: 2, sleep: true})
 		three := scenario("memory", "nack", "ack", false, []time.Duration{sec})
 		three.Name = "memory-3consumers"
 		three.Threads = append(three.Threads, qsched.Thread{Name: "c3", Steps: []qsched.Step{deq(2), own("ack")}})
-		runs = append(runs, run{three, -1})
+		runs = append(runs, run{sc: three, bound: -1})
 		// batch dequeues racing with single ones and a batch ack
 		b := scenario("memory", "ack", "nack", true, []time.Duration{sec})
 		b.Name = "memory-batch2"
 		b.Setup = append(b.Setup, qmodel.Op{Kind: "enq", Envs: []qmodel.EnvSpec{env("c")}})
 		b.Threads[0].Steps = []qsched.Step{deq(2), {Op: qmodel.Op{Kind: "ackb", Leases: []string{"own", "own2"}}}}
-		runs = append(runs, run{b, -1})
+		runs = append(runs, run{sc: b, bound: -1})
 		bs := scenario("sqlite", "ack", "nack", false, []time.Duration{sec})
 		bs.Name = "sqlite-batch2"
 		bs.Setup = append(bs.Setup, qmodel.Op{Kind: "enq", Envs: []qmodel.EnvSpec{env("c")}})
 		bs.Threads[0].Steps = []qsched.Step{deq(2), {Op: qmodel.Op{Kind: "nackb", Leases: []string{"own", "own2"}}}}
-		runs = append(runs, run{bs, 2})
+		runs = append(runs, run{sc: bs, bound: 2, sleep: true})
 		// three clock steps: expiry, re-lease, second expiry
 		cl := scenario("memory", "ext", "nack", false, []time.Duration{sec, sec, sec})
 		cl.Name = "memory-3ticks"
 		cl.Threads[0].Steps = append(cl.Threads[0].Steps, deq(1))
-		runs = append(runs, run{cl, 5})
+		runs = append(runs, run{sc: cl, bound: 5, sleep: true})
 	}
-	budget := runner.Pick(r, 60*time.Second, 12*time.Minute) / time.Duration(len(runs))
+	budget := runner.Pick(r, 60*time.Second, 16*time.Minute) / time.Duration(len(runs))
 	for _, ru := range runs {
 		body, rec := qsched.Body(ru.sc)
 		oracle := func(x *sched.Exec) {
@@ -106,8 +122,37 @@ func TestCheck(t *testing.T) {
 				sched.Failf("%s", why)
 			}
 		}
-		schedrun.Run(r, t, schedrun.Spec{Name: ru.sc.Name, Bound: ru.bound, Shards: 16, Budget: budget, Body: body, Oracle: oracle,
+		sum := schedrun.Run(r, t, schedrun.Spec{Name: ru.sc.Name, Bound: ru.bound, Shards: 16, Budget: budget, Body: body, Oracle: oracle,
 			VioKey: func(f *sched.Failure) string { return "lease-exclusivity:" + ru.sc.Backend }})
+		if ru.sleep && runner.ReplayPath() == "" {
+			sc2 := ru.sc
+			sc2.Name += "+sleep"
+			body2, rec2 := qsched.Body(sc2)
+			oracle2 := func(x *sched.Exec) {
+				if why := qsched.Exclusivity(rec2, sec); why != "" {
+					sched.Failf("lease exclusivity: %s", why)
+				}
+				if why := lin.Check(rec2.Init, rec2.Events); why != "" {
+					sched.Failf("%s", why)
+				}
+			}
+			sum2 := schedrun.Run(r, t, schedrun.Spec{Name: sc2.Name, Bound: -1, Sleep: true, Shards: 16, Budget: budget, Body: body2, Oracle: oracle2,
+				VioKey: func(f *sched.Failure) string { return "lease-exclusivity:" + ru.sc.Backend }})
+			if _, child := runner.IsShard(); !child && sum2.Exhaustive && !sum.Violation && !sum2.Violation {
+				// soundness cross-check of the reduction: nothing the plain exploration observed may be missing
+				a, b := canonSet(sum.OutcomeSet), canonSet(sum2.OutcomeSet)
+				for k := range a {
+					if !b[k] {
+						r.Infra("%s: outcome seen by the plain exploration is missing under sleep sets (reduction unsound here): %s", sc2.Name, k)
+						break
+					}
+				}
+				if ru.bound < 0 && sum.Exhaustive && len(a) != len(b) {
+					r.Infra("%s: sleep-set exploration has %d order-insensitive outcomes, the full enumeration %d", sc2.Name, len(b), len(a))
+				}
+				r.Add("sleep_set_cross_checks", 1)
+			}
+		}
 	}
 	if _, child := runner.IsShard(); !child && runner.ReplayPath() == "" {
 		dispatcherPart(r, t)
@@ -115,6 +160,6 @@ func TestCheck(t *testing.T) {
 	r.Assume("the virtual clock advances only while no store operation is in flight (operations take microseconds, leases seconds)")
 	r.Assume("scheduling points are the synchronisation operations of the store (mutex, atomics, SQLite connection acquisition); code between them is thread-local provided it is data-race free (side condition checked by a separate free-running -race pass)")
 	r.Assume("Postgres backend and the gRPC/HTTP transports in front of the store are not part of this exploration (pull HTTP: C04; dispatcher: C06)")
-	r.Set("rule", "every interleaving (memory: all; sqlite: within the preemption bound) of 2-3 consumer threads (dequeue, then ack/nack/extend the own lease), an operator thread (cancel, requeue) and a clock thread crossing the lease expiry, on the real store inside a synctest bubble; oracle per execution: lease-exclusivity monitor on the recorded grants + brute-force linearizability against qmodel; non-trivial = distinct observation logs; plus a history part: every sequence up to the depth over enqueue (incl. re-enqueue of an acked id), dequeue batch 1/2, ack/nack/delayed nack/extend/dead-letter single and batch, cancel/requeue and clock steps on both backends with qmodel and a direct grant monitor (no message twice in one dequeue, never while leased-unexpired / not due / canceled / dead / delivered, fresh lease id, attempt + 1); plus H4: the real PushDispatcher on a MemoryStore in a virtual-time bubble for targets {1,2} x concurrency {1,2,4} x timeout {10 s, 45 s, 2 min} x hang patterns of the first deliveries, with a monitor that no message is delivered by two workers at the same time")
+	r.Set("rule", "every interleaving (memory: all; sqlite: within the preemption bound, and additionally WITHOUT a bound under sleep-set partial-order reduction whose result is cross-checked against the plain exploration) of 2-3 consumer threads (dequeue, then ack/nack/extend the own lease), an operator thread (cancel, requeue) and a clock thread crossing the lease expiry, on the real store inside a synctest bubble; oracle per execution: lease-exclusivity monitor on the recorded grants + brute-force linearizability against qmodel; non-trivial = distinct observation logs; plus a history part: every sequence up to the depth over enqueue (incl. re-enqueue of an acked id), dequeue batch 1/2, ack/nack/delayed nack/extend/dead-letter single and batch, cancel/requeue and clock steps on both backends with qmodel and a direct grant monitor (no message twice in one dequeue, never while leased-unexpired / not due / canceled / dead / delivered, fresh lease id, attempt + 1); plus H4: the real PushDispatcher on a MemoryStore in a virtual-time bubble for targets {1,2} x concurrency {1,2,4} x timeout {10 s, 45 s, 2 min} x hang patterns of the first deliveries, with a monitor that no message is delivered by two workers at the same time")
 	r.Finish()
 }
